@@ -208,6 +208,7 @@ def relations(cases, impl):
             if ores is not None:
                 REL_STATS["symmetric_pairs_compared"] += 1
                 po = obs.parse_result(ores)
-                if (po[0] == "some") != (pr[0] == "some"): why = "unifying A with B and B with A disagree on success"
+                if po[0] in ("some", "none") and pr[0] in ("some", "none") and (po[0] == "some") != (pr[0] == "some"):
+                    why = "unifying A with B and B with A disagree on success"
         if why:
             yield dict(case=case, tag=tag, why=why, implementation=dict(result=res))
